@@ -15,7 +15,7 @@
    listener.  An event is one synchronous call into the facade.  The observable trace is
    the list of calls made to the collaborators: the push updaters of the protocols, the
    session manager, the close functions of the protocols and the user's DeviceListener. *)
-From Coq Require Import List Arith Bool String.
+From Coq Require Import List Arith Bool.
 From PV Require Import Common.Cases C09.Spec C09.Gen.
 Import ListNotations.
 
@@ -56,7 +56,9 @@ Definition report_with (closef : st -> st * list obs) (l : lkind) (s : st) (k : 
        | LNone => closef s1                          (* no listener: still state_was_updated() *)
        | LLive => let '(s2, o) := closef s1 in       (* state_was_updated() first ... *)
                   (s2, o ++ [Notify k])              (* ... then the listener's method runs *)
-       | LDead => (s1, [])                           (* hasattr(None, attr) is False: nothing *)
+       | LDead => closef s1                          (* expired weak reference: like no listener
+                                                        (repaired in /repo commit 0227894; before
+                                                        that this branch did nothing at all) *)
        end.
 
 Definition proto_tasks (i : nat) (p : pcfg) : list task := map (TProto i) (seq 0 (ntasks p)).
@@ -110,12 +112,13 @@ Definition step (c : cfg) (s : st) (e : ev) : st * list obs * res :=
   | Lost i x => let '(s', o) := report c s (NLost i x) in (s', o, RNone)
   | Closed i => let '(s', o) := report c s NClosed in (s', o, RNone)
   | UserClose => close c s
-  | Api m =>
+  | Api m =>                                       (* any other public member: guard, then relay *)
       match nth_error members m with
       | Some mem => (s, [], if blocked s && protected mem then RBlocked else ROk)
       | None => (s, [], RNone)
       end
-  | PushStart =>
+  | PushStart =>                                   (* FacadePushUpdater.start / stop have an effect of
+                                                      their own on the updaters: dedicated events *)
       if blocked s then (s, [], RBlocked)
       else (set_fwd s true, map UpdStart (seq 0 (length (protos c))), ROk)
   | PushStop =>
